@@ -33,6 +33,7 @@ def run_case(case, prefix):
     apps = case.get("apps", [2, 2])             # stanzas per application thread
     direct_ping = case.get("direct_ping", 0)    # a thread calling YowIqProtocolLayer.sendIq(ping) n times
     real_ping = case.get("real_ping", False)    # the library's YowPingThread, one interval
+    early = case.get("early", 0)                # a sender that does not wait for the login to complete
     server_pings = case.get("server_pings", 0)  # network thread answers n server pings
     variant = case.get("variant", "IK")
     w = H.World(variant=variant, burst=0, with_success=True, ping_interval=1 if real_ping else 0)
@@ -47,11 +48,43 @@ def run_case(case, prefix):
             sc.wait_until(lambda: len(w.server_out[0]) > 0, "server bytes")
             w.deliver(0, len(w.server_out[0]))
 
-    status = sc.run_phase([("net", net)], timeout=600.0)
-    setup_points = len(sc.points)
+    sent = {}
+    early_results = []
+
+    def early_sender():
+        # e.g. a keep-alive or an impatient application: sends as soon as the connection exists
+        sc.wait_until(lambda: w.state() in ("handshake", "transport"), "connection exists")
+        for k in range(early):
+            node = H.out_stanza(k, "early")
+            try:
+                w.stack.send(H.NodeEntity(node))
+                sent.setdefault("early", []).append(H.node_key(node))
+                early_results.append("ok")
+            except S.SchedAbort:
+                raise
+            except Exception as e:
+                early_results.append(type(e).__name__)      # refused: counts as not sent
+
+    def make_waiting_app(name, n):
+        def app():
+            sc.wait_until(lambda: w.state() == "transport" and w.responders and w.responders[0].phase == "transport", "session up")
+            for k in range(n):
+                node = H.out_stanza(k, name)
+                sent.setdefault(name, []).append(H.node_key(node))
+                w.stack.send(H.NodeEntity(node))
+        return app
+
+    first = [("net", net)]
+    if early:
+        # everything in one phase: the early sender overlaps the handshake, the application threads start sending the
+        # moment the session is up - whatever the library does with the early stanza may overlap them
+        first.append(("early", early_sender))
+        for i, n in enumerate(apps):
+            first.append(("app%d" % i, make_waiting_app("t%d" % i, n)))
+    status = sc.run_phase(first, timeout=600.0)
+    setup_points = len(sc.points) if not early else 0
     setup_ok = (w.state() == "transport" and w.responders[0].phase == "transport"
                 and any(type(e).__name__ == "SuccessProtocolEntity" for e in w.app.received))
-    sent = {}
 
     def make_app(name, n):
         def app():
@@ -75,7 +108,7 @@ def run_case(case, prefix):
     error = None
     blocked = []
     if setup_ok:
-        fns = [("app%d" % i, make_app("t%d" % i, n)) for i, n in enumerate(apps)]
+        fns = [("app%d" % i, make_app("t%d" % i, n)) for i, n in enumerate(apps)] if not early else []
         if direct_ping:
             fns.append(("pinger", pinger))
         if server_pings:
@@ -97,7 +130,7 @@ def run_case(case, prefix):
     def bad(sig, what, detail=None):
         v.append(("C11:" + sig, what, dict(case), detail))
 
-    if not setup_ok:
+    if not setup_ok and not early:
         bad("setup-failed", "handshake on the default schedule did not complete", {"state": w.state()})
         return pts, v, ("setup",)
     for ent in log:
@@ -156,6 +189,7 @@ def cases_for(tier):
         {"apps": [1], "real_ping": True},
         {"apps": [2], "server_pings": 1},
         {"apps": [1], "direct_ping": 1, "server_pings": 1},
+        {"apps": [1], "early": 1},
     ]
     if not quick:
         cases += [
@@ -164,6 +198,7 @@ def cases_for(tier):
             {"apps": [1, 1], "direct_ping": 1, "server_pings": 2},
             {"apps": [2, 2], "variant": "XX"},
             {"apps": [1, 1, 1, 1]},
+            {"apps": [1, 1], "early": 2, "variant": "XX"},
         ]
     return cases
 
@@ -176,8 +211,18 @@ def run(ctx):
     st = dfs.explore(ctx, MOD, "run_case", cases, bound, cap=cap, chunksize=8, free_bound=free_bound)
     ctx.note("preemption bound %d, free-deviation bound %d: executions=%d capped=%s" % (bound, free_bound, st.executions, st.capped))
     if not ctx.quick and not ctx.violations:
-        # sync-only points (locks, queues, spawn/exit) allow one more preemption on the two-thread cases
-        pass
+        # line-granularity scheduling points (layers/__init__.py, noise/layer.py, segments layer) for the small cases
+        lc = []
+        for c in cases:
+            if sum(c.get("apps", [])) <= 2 and len(c.get("apps", [])) <= 2:
+                d = dict(c)
+                d["lines"] = True
+                lc.append(d)
+        stl = dfs.explore(ctx, MOD, "run_case", lc, 1, cap=cap, chunksize=8, free_bound=1)
+        ctx.note("line-level points: cases=%d executions=%d capped=%s" % (len(lc), stl.executions, stl.capped))
+        st.executions += stl.executions
+        st.points += stl.points
+        st.capped = st.capped or stl.capped
     p1 = run_case(cases[0], (0, {}))
     p2 = run_case(cases[0], (0, {}))
     if p1 != p2:
